@@ -8,7 +8,7 @@ instance `α = Float`, bit for bit, and at an exact instance of fractions).
 1. THE CARRIER.  Python floats are values of a type parameter `α` with exactly the operations the C15 hand model is
    polymorphic over: `<`, `≤` (decidable), `==` (`BEq`), `*`, `-`, unary `-`, the literals `0` and `1`.  NO laws are
    assumed.  `float(x)` of a carrier value is the identity (`PyRtC15.float`); the truth value of a carrier value is
-   `!(x == 0)` (`truthy`).  At `α = Float` (Lean's `Float` = the C `double`) every one of these is the IEEE operation
+   `!(x == 0)`.  At `α = Float` (Lean's `Float` = the C `double`) every one of these is the IEEE operation
    CPython performs.
 
 2. `count` IS DYNAMICALLY TYPED (`None`, a string, an int): `CountV`.  Operations Python refuses raise `TypeError`.
@@ -31,8 +31,8 @@ variable {α : Type}
 /-- `float(x)` of a value that already is a float -/
 @[reducible] def float (x : α) : α := x
 
-/-- truth value of a number: `bool(x)` is `x != 0` -/
-def truthy [BEq α] [OfNat α 0] (x : α) : Bool := !(x == 0)
+/-- truth value of a number: `bool(x)` is `x != 0` (the translator writes `!(x == 0)` out) -/
+@[reducible] def truthy [BEq α] [OfNat α 0] (x : α) : Bool := !(x == 0)
 
 end carrier
 
